@@ -1,9 +1,9 @@
 SPECIFICATION LSpec
 CONSTANTS
-  MaxPieces = 3
-  MaxPhrase = 3
-  MaxTmpl = 0
-  Hosts = {"out", "assign"}
+  MaxPieces = 0
+  MaxPhrase = 0
+  MaxTmpl = 4
+  Hosts = {"tmpl_raw"}
   EmitAll = TRUE
 INVARIANTS Emit
 CHECK_DEADLOCK FALSE
